@@ -1,10 +1,20 @@
 import PyTrie.Model.HexDrv
+import PyTrie.Model.FogDrv
+import PyTrie.Model.BinDrv
+import PyTrie.Model.SmtDrv
+import PyTrie.Model.EncDrv
+import PyTrie.Model.SdbDrv
 /-! `trie_model`: reads one command per line on stdin, writes one reply per line on stdout.
     A command is `<module>.<cmd> arg…`; unknown or ill-formed commands answer `bad-op`. -/
 open PyTrie
 
 structure DrvSt where
   hx : HexDrv.St := {}
+  fog : FogDrv.St := {}
+  bin : BinDrv.St := {}
+  smt : SmtDrv.St := {}
+  enc : EncDrv.St := {}
+  sdb : SdbDrv.St := {}
 
 def dispatch (st : DrvSt) (line : String) : DrvSt × String :=
   match (line.splitOn " ").filter (· ≠ "") with
@@ -12,6 +22,11 @@ def dispatch (st : DrvSt) (line : String) : DrvSt × String :=
   | head :: args =>
     match head.splitOn "." with
     | ["hx", cmd] => let (s, out) := HexDrv.step st.hx cmd args; ({ st with hx := s }, out)
+    | ["fog", cmd] => let (s, out) := FogDrv.step st.fog cmd args; ({ st with fog := s }, out)
+    | ["bin", cmd] => let (s, out) := BinDrv.step st.bin cmd args; ({ st with bin := s }, out)
+    | ["smt", cmd] => let (s, out) := SmtDrv.step st.smt cmd args; ({ st with smt := s }, out)
+    | ["enc", cmd] => let (s, out) := EncDrv.step st.enc cmd args; ({ st with enc := s }, out)
+    | ["sdb", cmd] => let (s, out) := SdbDrv.step st.sdb cmd args; ({ st with sdb := s }, out)
     | _ => (st, "bad-op")
 
 partial def loop (hin hout : IO.FS.Stream) (st : DrvSt) : IO Unit := do
